@@ -1,0 +1,165 @@
+//go:build verif
+
+// Contracts for the verifier in /verif (comment-only; compiled only with -tags verif, adds no code).
+package decoder
+
+// ---- C12/C02: hover inside a list. The element under the cursor (and only an element that contains the
+// ---- cursor) is handed on with the element constraint; the list itself is described only when no element
+// ---- contains the cursor, with the range of the whole list expression and the description the schema gives.
+//@ contract (decoder.List).HoverAtPos (list, ctx, pos) (result)
+//@   requires [C12] list.expr.Range().ContainsPos(pos)
+//@   ensures [C12] result == nil || (result.Range.ContainsPos(pos) && len(result.Content.Value) > 0)
+//@   assert before decoder.newExpression#1 : [C12,name:element-against-the-element-constraint] arg1 == elemExpr && arg2 == list.cons.Elem
+//@   assert before invoke:HoverAtPos#1 : [C12,name:element-asked-only-if-it-contains-the-cursor] elemExpr.Range().ContainsPos(pos) && arg1 == pos
+//@   loop 1 invariant [C12] forall(j, 0, rangeindex + 1, !(eType.Exprs[j].Range().Start.Byte <= pos.Byte && pos.Byte < eType.Exprs[j].Range().End.Byte))
+//@   ensures [C12,name:whole-list-only-when-no-element-is-under-the-cursor] implies(len(content) >= 0, forall(j, 0, len(eType.Exprs), !(eType.Exprs[j].Range().Start.Byte <= pos.Byte && pos.Byte < eType.Exprs[j].Range().End.Byte)))
+//@   ensures [C12,C02,name:whole-list-range] implies(len(content) >= 0, result != nil && result.Range == list.expr.Range())
+//@   ensures [C12,name:list-description] implies(len(content) >= 0 && list.cons.Description.Value != "", endsWith(result.Content.Value, "\n\n" + list.cons.Description.Value))
+//@   ghost fname after (schema.List).FriendlyName#1 : callresult
+//@   ensures [C12,name:list-named] implies(len(content) >= 0 && list.cons.Description.Value == "", result.Content.Value == "_" + (fname + "_"))
+
+// ---- the same for a set.
+//@ contract (decoder.Set).HoverAtPos (set, ctx, pos) (result)
+//@   requires [C12] set.expr.Range().ContainsPos(pos)
+//@   ensures [C12] result == nil || (result.Range.ContainsPos(pos) && len(result.Content.Value) > 0)
+//@   assert before decoder.newExpression#1 : [C12,name:element-against-the-element-constraint] arg1 == elemExpr && arg2 == set.cons.Elem
+//@   assert before invoke:HoverAtPos#1 : [C12,name:element-asked-only-if-it-contains-the-cursor] elemExpr.Range().ContainsPos(pos) && arg1 == pos
+//@   loop 1 invariant [C12] forall(j, 0, rangeindex + 1, !(eType.Exprs[j].Range().Start.Byte <= pos.Byte && pos.Byte < eType.Exprs[j].Range().End.Byte))
+//@   ensures [C12,name:whole-set-only-when-no-element-is-under-the-cursor] implies(len(content) >= 0, forall(j, 0, len(eType.Exprs), !(eType.Exprs[j].Range().Start.Byte <= pos.Byte && pos.Byte < eType.Exprs[j].Range().End.Byte)))
+//@   ensures [C12,C02,name:whole-set-range] implies(len(content) >= 0, result != nil && result.Range == set.expr.Range())
+//@   ensures [C12,name:set-description] implies(len(content) >= 0 && set.cons.Description.Value != "", endsWith(result.Content.Value, "\n\n" + set.cons.Description.Value))
+//@   ghost fname after (schema.Set).FriendlyName#1 : callresult
+//@   ensures [C12,name:set-named] implies(len(content) >= 0 && set.cons.Description.Value == "", result.Content.Value == "_" + (fname + "_"))
+
+// ---- C12/C02: hover inside a map. A value under the cursor is handed on with the element constraint; a key
+// ---- under the cursor is interpreted only if it is a parenthesised expression and the constraint allows
+// ---- interpolated keys (then as a string expression), otherwise nothing is known there; the map itself is
+// ---- described only when neither a key nor a value contains the cursor.
+//@ contract (decoder.Map).HoverAtPos (m, ctx, pos) (result)
+//@   requires [C12] m.expr.Range().ContainsPos(pos)
+//@   ensures [C12] result == nil || (result.Range.ContainsPos(pos) && len(result.Content.Value) > 0)
+//@   assert before decoder.newExpression#1 : [C12,name:key-expression-as-a-string-where-keys-may-be-interpolated] m.cons.AllowInterpolatedKeys && item.KeyExpr.Range().ContainsPos(pos) && as(arg1, "*hclsyntax.ParenthesesExpr") == parensExpr && as(arg2, "schema.AnyExpression").OfType == cty.String
+//@   assert before decoder.newExpression#1 : [C12,name:key-expression-is-the-key-of-this-item] typeis(item.KeyExpr, "*hclsyntax.ObjectConsKeyExpr") && as(as(item.KeyExpr, "*hclsyntax.ObjectConsKeyExpr").Wrapped, "*hclsyntax.ParenthesesExpr") == parensExpr
+//@   assert before invoke:HoverAtPos#1 : [C12] arg1 == pos
+//@   assert before decoder.newExpression#2 : [C12,name:value-against-the-element-constraint] arg1 == item.ValueExpr && arg2 == m.cons.Elem
+//@   assert before invoke:HoverAtPos#2 : [C12,name:value-asked-only-if-it-contains-the-cursor] item.ValueExpr.Range().ContainsPos(pos) && !item.KeyExpr.Range().ContainsPos(pos) && arg1 == pos
+//@   loop 1 invariant [C12] forall(j, 0, rangeindex + 1, !(eType.Items[j].KeyExpr.Range().Start.Byte <= pos.Byte && pos.Byte < eType.Items[j].KeyExpr.Range().End.Byte) && !(eType.Items[j].ValueExpr.Range().Start.Byte <= pos.Byte && pos.Byte < eType.Items[j].ValueExpr.Range().End.Byte))
+//@   ensures [C12,name:whole-map-only-when-no-key-or-value-is-under-the-cursor] implies(len(content) >= 0, forall(j, 0, len(eType.Items), !(eType.Items[j].KeyExpr.Range().Start.Byte <= pos.Byte && pos.Byte < eType.Items[j].KeyExpr.Range().End.Byte) && !(eType.Items[j].ValueExpr.Range().Start.Byte <= pos.Byte && pos.Byte < eType.Items[j].ValueExpr.Range().End.Byte)))
+//@   ensures [C12,C02,name:whole-map-range] implies(len(content) >= 0, result != nil && result.Range == m.expr.Range())
+//@   ensures [C12,name:map-description] implies(len(content) >= 0 && m.cons.Description.Value != "", endsWith(result.Content.Value, "\n\n" + m.cons.Description.Value))
+//@   ghost fname after (schema.Map).FriendlyName#1 : callresult
+//@   ensures [C12,name:map-named] implies(len(content) >= 0 && m.cons.Description.Value == "", result.Content.Value == "_" + (fname + "_"))
+
+// ---- C12: a one-of constraint answers with what the first alternative that knows the expression says: every
+// ---- alternative is asked about the same expression at the same position, an alternative is passed over only
+// ---- if it knows nothing, and nothing is reported only after all of them were asked.
+//@ contract (decoder.OneOf).HoverAtPos (oo, ctx, pos) (result)
+//@   requires [C12] oo.expr.Range().ContainsPos(pos)
+//@   ensures [C12] result == nil || (result.Range.ContainsPos(pos) && len(result.Content.Value) > 0)
+//@   assert before decoder.newExpression#1 : [C12,name:same-expression-against-each-alternative] arg1 == oo.expr && arg2 == con
+//@   assert before invoke:HoverAtPos#1 : [C12] arg1 == pos
+//@   ghost answered after invoke:HoverAtPos#1 : callresult
+//@   loop 1 iter [C12,name:passed-over-only-if-it-knows-nothing] answered == nil
+//@   ensures [C12,name:nothing-only-after-every-alternative] implies(result == nil, rangeindex + 1 == len(oo.cons))
+//@   ensures [C12,name:answer-of-the-alternative] implies(result != nil, result == answered)
+
+// ---- C12/C02: hover of a literal under a type constraint. The type described is the declared one (the type of
+// ---- the written value only where any type is allowed); a primitive literal is described by that type's name
+// ---- with the range of the whole literal, and only if the written value converts to the type; a collection
+// ---- literal is handed on, whole, to the constraint built from the element type(s) of the declared type.
+//@ spec notCollection(t cty.Type) bool = !t.IsListType() && !t.IsSetType() && !t.IsTupleType() && !t.IsMapType() && !t.IsObjectType()
+//@ contract (decoder.LiteralType).HoverAtPos (lt, ctx, pos) (result)
+//@   requires [C12] lt.expr.Range().ContainsPos(pos)
+//@   ensures [C12] result == nil || (result.Range.ContainsPos(pos) && len(result.Content.Value) > 0)
+//@   ensures [C12,name:declared-type-unless-any-type-is-allowed] implies(lt.cons.Type != cty.DynamicPseudoType, typ == lt.cons.Type)
+//@   ensures [C12,C02,name:primitive-literal-whole-range] implies(result != nil && (typ == cty.String || typ.IsPrimitiveType()) && notCollection(typ), result.Range == lt.expr.Range())
+//@   ensures [C12,name:primitive-literal-named-by-its-type] implies(result != nil && (typ == cty.String || typ.IsPrimitiveType()) && notCollection(typ), result.Content.Value == "_" + (typ.FriendlyName() + "_"))
+//@   ghost converted after convert.Convert#1 : true
+//@   ghost convErr after convert.Convert#1 : err
+//@   assert before convert.Convert#1 : [C12,name:written-value-converts-to-the-type] arg0 == as(lt.expr, "*hclsyntax.LiteralValueExpr").Val && arg1 == typ
+//@   ensures [C12,name:described-only-if-convertible] implies(result != nil && typ.IsPrimitiveType() && typeis(lt.expr, "*hclsyntax.LiteralValueExpr"), converted && convErr == nil)
+//@   ghost isLit after (*hclsyntax.TemplateExpr).IsStringLiteral#1 : callresult
+//@   ghost isMultiLit after decoder.isMultilineStringLiteral#1 : callresult
+//@   ensures [C12,name:string-template-only-if-literal] implies(result != nil && typ == cty.String && typeis(lt.expr, "*hclsyntax.TemplateExpr") && notCollection(typ), isLit || isMultiLit)
+//@   assert before decoder.newExpression#1 : [C12,name:list-literal-with-the-element-type] typ.IsListType() && as(arg1, "*hclsyntax.TupleConsExpr") == as(lt.expr, "*hclsyntax.TupleConsExpr") && as(as(arg2, "schema.List").Elem, "schema.LiteralType").Type == typ.ElementType()
+//@   assert before decoder.newExpression#2 : [C12,name:set-literal-with-the-element-type] typ.IsSetType() && as(arg1, "*hclsyntax.TupleConsExpr") == as(lt.expr, "*hclsyntax.TupleConsExpr") && as(as(arg2, "schema.Set").Elem, "schema.LiteralType").Type == typ.ElementType()
+//@   assert before decoder.newExpression#3 : [C12,name:tuple-literal-with-one-constraint-per-element-type] typ.IsTupleType() && as(arg1, "*hclsyntax.TupleConsExpr") == as(lt.expr, "*hclsyntax.TupleConsExpr") && len(as(arg2, "schema.Tuple").Elems) == len(typ.TupleElementTypes())
+//@   loop 1 invariant [C12] len(cons.Elems) == len(elemTypes) && forall(j, 0, rangeindex + 1, as(cons.Elems[j], "schema.LiteralType").Type == elemTypes[j])
+//@   assert before decoder.newExpression#3 : [C12,name:tuple-element-i-with-element-type-i] forall(j, 0, len(elemTypes), as(as(arg2, "schema.Tuple").Elems[j], "schema.LiteralType").Type == elemTypes[j])
+//@   assert before decoder.newExpression#4 : [C12,name:map-literal-with-the-element-type] typ.IsMapType() && as(arg1, "*hclsyntax.ObjectConsExpr") == as(lt.expr, "*hclsyntax.ObjectConsExpr") && as(as(arg2, "schema.Map").Elem, "schema.LiteralType").Type == typ.ElementType()
+//@   ghost objAttrs after decoder.ctyObjectToObjectAttributes#1 : callresult
+//@   assert before decoder.ctyObjectToObjectAttributes#1 : [C12] arg0 == typ
+//@   assert before decoder.newExpression#5 : [C12,name:object-literal-with-the-attributes-of-the-type] typ.IsObjectType() && as(arg1, "*hclsyntax.ObjectConsExpr") == as(lt.expr, "*hclsyntax.ObjectConsExpr") && as(arg2, "schema.Object").Attributes == objAttrs
+//@   assert before invoke:HoverAtPos#1 : [C12] arg1 == pos
+//@   assert before invoke:HoverAtPos#2 : [C12] arg1 == pos
+//@   assert before invoke:HoverAtPos#3 : [C12] arg1 == pos
+//@   assert before invoke:HoverAtPos#4 : [C12] arg1 == pos
+//@   assert before invoke:HoverAtPos#5 : [C12] arg1 == pos
+
+// ---- C12/C02: hover of a reference. Origins are looked up at the cursor in the file of the expression, the
+// ---- targets among the targets of this path; the content is the description of the first matching target,
+// ---- the range is the whole traversal; nothing is reported only after every origin at the cursor was tried.
+//@ contract (decoder.Reference).HoverAtPos (ref, ctx, pos) (result)
+//@   requires [C12] ref.expr.Range().ContainsPos(pos)
+//@   ensures [C12] result == nil || (result.Range.ContainsPos(pos) && len(result.Content.Value) > 0)
+//@   ensures [C12,C02,name:whole-reference-range] implies(result != nil, result.Range == ref.expr.Range())
+//@   assert before (reference.Origins).AtPos#1 : [C12,C02,name:origins-at-the-cursor-in-the-file-of-the-expression] arg0 == ref.pathCtx.ReferenceOrigins && arg1 == ref.expr.Range().Filename && arg2 == pos
+//@   assert before (reference.Targets).Match#1 : [C12,name:matched-against-the-targets-of-the-path] arg0 == ref.pathCtx.ReferenceTargets && arg1 == matchableOrigin
+//@   ghost found after (reference.Targets).Match#1 : ok
+//@   assert before decoder.hoverContentForReferenceTarget#1 : [C12,name:first-matching-target-described-at-the-cursor] found && arg0 == ctx && arg1 == targets[0] && arg2 == pos
+//@   ghost described after decoder.hoverContentForReferenceTarget#1 : content
+//@   ensures [C12,name:content-is-the-description-of-the-target] implies(result != nil, result.Content.Value == described)
+//@   ghost originsFound after (reference.Origins).AtPos#1 : ok
+//@   ensures [C12,name:nothing-only-after-every-origin] implies(result == nil && originsFound, rangeindex + 1 == len(origins))
+//@   ensures [C12,name:described-only-if-a-target-was-found] implies(result != nil, originsFound && found)
+
+// ---- C12: what is said about a reference target: its address as seen from the cursor, then its type (or, if
+// ---- it has no describable type, its friendly name), then the description the target carries.
+//@ contract decoder.hoverContentForReferenceTarget (ctx, ref, pos) (content, err)
+//@   ensures [C12] err == nil
+//@   ensures [C12] len(content) > 0
+//@   assert before (reference.Target).Address#1 : [C12,name:address-as-seen-from-the-cursor] arg1 == ctx && arg2 == pos
+//@   assert before decoder.hoverContentForType#1 : [C12,name:type-of-the-target] arg0 == ref.Type && arg1 == 0
+//@   ensures [C12,name:target-description] implies(ref.Description.Value != "", endsWith(content, "\n\n" + ref.Description.Value))
+//@   ghost typeErr after decoder.hoverContentForType#1 : err
+//@   ghost typeText after decoder.hoverContentForType#1 : typeContent
+//@   ghost typed after decoder.hoverContentForType#1 : true
+//@   ensures [C12,name:type-shown-when-it-can-be-described] implies(ref.Description.Value == "" && typed && typeErr == nil, endsWith(content, "\n" + typeText))
+//@   ghost fname after (reference.Target).FriendlyName#1 : callresult
+//@   ensures [C12,name:friendly-name-otherwise] implies(ref.Description.Value == "" && ref.Type == cty.NilType, endsWith(content, " " + fname))
+
+// ---- C12: how a type is rendered. Every kind of type cty has is rendered; primitive and collection types by
+// ---- their name; an object type lists every attribute with the rendering of that attribute's type one level
+// ---- deeper, optional attributes marked.
+//@ spec namedType(t cty.Type) bool = t.IsPrimitiveType() || t == cty.DynamicPseudoType || (!t.IsObjectType() && (t.IsMapType() || t.IsListType() || t.IsSetType() || t.IsTupleType()))
+//@ contract decoder.hoverContentForType (attrType, nestingLvl) (result, err)
+//@   ensures [C12,name:every-kind-of-type-is-rendered] implies(attrType.IsPrimitiveType() || attrType == cty.DynamicPseudoType || attrType.IsObjectType() || attrType.IsMapType() || attrType.IsListType() || attrType.IsSetType() || attrType.IsTupleType(), err == nil)
+//@   ensures [C12,name:named-at-top-level] implies(err == nil && nestingLvl == 0 && namedType(attrType), result == "_" + (attrType.FriendlyName() + "_"))
+//@   ensures [C12,name:named-when-nested] implies(err == nil && nestingLvl > 0 && namedType(attrType), result == attrType.FriendlyName())
+//@   ensures [C12,name:top-level-name-is-non-empty-content] implies(err == nil && nestingLvl == 0 && namedType(attrType), len(result) > 0)
+//@   ensures [C12,name:non-empty-object-is-non-empty-content] implies(len(attrNames) > 0 && len(value) >= 0, len(result) > 0)
+//@   assert before decoder.hoverContentForType#1 : [C12,name:attribute-type-one-level-deeper] arg0 == attrType.AttributeType(name) && arg1 == nestingLvl + 1
+//@   loop 1 iter [C12,name:every-attribute-listed-with-its-type] value == old(value) + (insideNesting + (name + (" = " + (valData + "\n"))))
+//@   loop 1 iter [C12,name:rendering-of-the-attribute-type-optional-marked] valData == ite(attrType.AttributeOptional(name), "optional, " + ite(err == nil, data, valType.FriendlyNameForConstraint()), ite(err == nil, data, valType.FriendlyNameForConstraint()))
+
+// ---- C12: what is said about a function: its signature (name, parameters, return type), the description and,
+// ---- if there is one, the detail.
+//@ contract decoder.hoverContentForFunction (name, funcSig) (content)
+//@   ensures [C12] len(content.Value) > 0
+//@   ghost params after decoder.parameterNamesAsString#1 : callresult
+//@   ensures [C12,name:signature-and-description] implies(funcSig.Detail == "", content.Value == "```terraform\n" + (name + ("(" + (params + (") " + (funcSig.ReturnType.FriendlyName() + ("\n```\n\n" + funcSig.Description)))))))
+//@   ensures [C12,name:detail-appended] implies(funcSig.Detail != "", content.Value == ("```terraform\n" + (name + ("(" + (params + (") " + (funcSig.ReturnType.FriendlyName() + ("\n```\n\n" + funcSig.Description))))))) + ("\n\n" + funcSig.Detail))
+
+// ---- C12/C02: the entry point asks the body of the file it was given, with the schema of the path, at the
+// ---- position it was given, and reports exactly what that yields; without a file, a native-syntax body, a
+// ---- position inside the file or a schema it reports an error and no data.
+//@ contract (*decoder.PathDecoder).HoverAtPos (d, ctx, filename, pos) (result, err)
+//@   assert before hoverAtPos#1 : [C12,name:asked-at-the-given-position-with-the-schema-of-the-path] arg0 == d && arg2 == rootBody && arg3 == d.pathCtx.Schema && arg3 != nil && arg4 == pos
+//@   assert before hoverAtPos#1 : [C02,C12,name:body-of-the-named-file] haskey(d.pathCtx.Files, filename) && as(d.pathCtx.Files[filename].Body, "*hclsyntax.Body") == arg2
+//@   assert before hoverAtPos#1 : [C02,C12,name:cursor-inside-the-file] arg2.Range().ContainsPos(pos) || (arg2.Range().Start.Byte == pos.Byte && arg2.Range().Start.Line == pos.Line && arg2.Range().Start.Column == pos.Column) || (arg2.Range().End.Byte == pos.Byte && arg2.Range().End.Line == pos.Line && arg2.Range().End.Column == pos.Column)
+//@   ghost asked after hoverAtPos#1 : true
+//@   ghost answer after hoverAtPos#1 : data
+//@   ghost answerErr after hoverAtPos#1 : err
+//@   ensures [C12,name:reports-what-the-body-yields] implies(err == nil, asked && answerErr == nil && result == answer)
+//@   ensures [C12,name:no-data-with-an-error] implies(err != nil, result == nil)
+//@   ensures [C12,name:errors-of-the-body-passed-on] implies(asked && answerErr != nil, err == answerErr)
